@@ -24,6 +24,7 @@ fn run_case(toks: &[&str]) -> String {
         Some("stress") => stress::run_stress(toks),
         Some("savecrash") => crash::run_savecrash(toks),
         Some("savesys") => crash::run_savesys(toks),
+        Some("savetrace") => crash::run_savetrace(toks),
         Some("csv") | Some("csvx") | Some("mdl2") | Some("tt") | Some("esc") | Some("rmc") | Some("csvf") | Some("ini") | Some("mdl") | Some("totext") => txt::run_txt(toks),
         Some("eng") => eng::run_eng(toks, false),
         Some("engc") => eng::run_eng(toks, true),
